@@ -5,7 +5,8 @@
 Granularity: the pool's free list is an abstract FIFO of slot ids (each `alloc` / `dealloc` is one atomic step — the ring
 underneath is models M1/M2, whose linearizability is property C02); the reference counter of a shared handle is accessed
 in micro-steps, one per `vp!` hook of `ogre_arc.rs` (`oa.clone`, `oa.inc`, `oa.drop.dec`, `oa.drop.dealloc`,
-`oa.drop.free`, `oa.count`).
+`oa.drop.free`, `oa.count`); `dealloc_id` itself is two steps: the payload's destructor (`pa.dealloc.drop`), then the push of
+the slot id onto the free list (`pa.dealloc.free`) — a slot is not allocatable while its destructor runs.
 
 Handles are anonymous: a control block counts its `live` handles (ghost).  An operation in progress *borrows or consumes*
 one handle (`lent`), which is how Rust's ownership rules are reflected: nobody can drop the handle another call is using.
@@ -47,8 +48,12 @@ inductive Loc where
   | clone (cb : Nat)          -- `oa.clone`: `fetch_add(1)`
   | inc (cb k : Nat)          -- `oa.inc`: `fetch_add(k)`
   | dDec (cb : Nat)           -- `oa.drop.dec`: `fetch_sub(1)`
-  | dDealloc (cb : Nat)       -- `oa.drop.dealloc`: `allocator.dealloc_id(data_id)`
+  | dDealloc (cb : Nat)       -- `oa.drop.dealloc`: about to call `allocator.dealloc_id(data_id)`
+  | dDestroy (cb : Nat)       -- `pa.dealloc.drop`: `drop_in_place(slot)` (the payload's destructor)
+  | dRelease (cb : Nat)       -- `pa.dealloc.free`: the slot id goes back onto the free list
   | dFree (cb : Nat)          -- `oa.drop.free`: `Box::from_raw(inner)` dropped
+  | uDestroy (id : Nat)       -- `pa.dealloc.drop` (unique handle / raw allocation being released)
+  | uRelease (id : Nat)       -- `pa.dealloc.free`
   | count (cb : Nat)          -- `oa.count`: `load`
   deriving DecidableEq, Repr
 
@@ -94,11 +99,16 @@ def allocWrite (s : St) (v : Nat) : Option (St × Nat) :=
                    slotGen := fun j => if j = id then s.nextGen else s.slotGen j,
                    nextGen := s.nextGen + 1 }, id)
 
-/-- `dealloc_id`: run the destructor in place, give the id back -/
-def dealloc (s : St) (id : Nat) : St :=
+/-- first half of `dealloc_id`: run the destructor in place -/
+def destroy (s : St) (id : Nat) : St :=
   { s with alive := fun j => if j = id then false else s.alive j,
-           dropLog := s.dropLog ++ [(id, s.slotGen id, s.slot id)],
-           free := s.free ++ [id] }
+           dropLog := s.dropLog ++ [(id, s.slotGen id, s.slot id)] }
+
+/-- second half of `dealloc_id`: give the id back to the free list -/
+def release (s : St) (id : Nat) : St := { s with free := s.free ++ [id] }
+
+/-- `dealloc_id` as a whole -/
+def dealloc (s : St) (id : Nat) : St := release (destroy s id) id
 
 def step (s : St) (t : Nat) : St :=
   match s.thr t with
@@ -109,7 +119,11 @@ def step (s : St) (t : Nat) : St :=
       let c := getCB s i
       let s' := updCB s i fun c => { c with rc := c.rc - 1, lent := c.lent - 1 }
       if c.rc = 1 then setThr s' t (.dDealloc i) else setThr s' t (.done .unit)
-  | .dDealloc i => setThr (dealloc s (getCB s i).id) t (.dFree i)
+  | .dDealloc i => setThr s t (.dDestroy i)
+  | .dDestroy i => setThr (destroy s (getCB s i).id) t (.dRelease i)
+  | .dRelease i => setThr (release s (getCB s i).id) t (.dFree i)
+  | .uDestroy id => setThr (destroy s id) t (.uRelease id)
+  | .uRelease id => setThr (release s id) t (.done .unit)
   | .dFree i => setThr (updCB s i fun c => { c with freed := true }) t (.done .unit)
   | .count i => setThr (updCB s i fun c => { c with lent := c.lent - 1, live := c.live + 1 }) t (.done (.count (getCB s i).rc))
 
@@ -162,7 +176,7 @@ def apply (s : St) : Act → St
       else s
   | .dropUnique t id =>
       if s.thr t = .idle ∧ id ∈ s.uniques then
-        setThr { dealloc s id with uniques := s.uniques.erase id } t (.done .unit)
+        setThr { s with uniques := s.uniques.erase id } t (.uDestroy id)
       else s
   | .derefUnique t id =>
       if s.thr t = .idle ∧ id ∈ s.uniques then setThr s t (.done (.value (s.slot id))) else s
@@ -186,6 +200,10 @@ def tagOf : Loc → Option (String × Nat)
   | .inc _ k => some ("oa.inc", k)
   | .dDec _ => some ("oa.drop.dec", 0)
   | .dDealloc _ => some ("oa.drop.dealloc", 0)
+  | .dDestroy _ => some ("pa.dealloc.drop", 0)
+  | .dRelease _ => some ("pa.dealloc.free", 0)
+  | .uDestroy id => some ("pa.dealloc.drop", id)
+  | .uRelease id => some ("pa.dealloc.free", id)
   | .dFree _ => some ("oa.drop.free", 0)
   | .count _ => some ("oa.count", 0)
   | _ => none
